@@ -3,7 +3,7 @@ from harness import dbgen as D
 from harness.props import c09
 
 RULE = ("histories of <= 8 loads over good file A / good file B (other sections) / the same file again / bad files with the fault at "
-        "every line position / bad files that differ from a good one only in the IP version of a signature whose quirk list is legal for the other version / unreadable paths, on ONE shared Database object; an observer takes a full snapshot (every section via "
+        "every line position / files above 64 KiB (complete only when read to the end, fault on the last line) / bad files that differ from a good one only in the IP version of a signature whose quirk list is legal for the other version / unreadable paths, on ONE shared Database object; an observer takes a full snapshot (every section via "
         "iter_values + len) at EVERY line-read point of every load (wrapped file iterator) and after every return; each snapshot must "
         "equal the complete contents of the version the model says is visible; contents after a successful load must equal a fresh "
         "load of that file alone; before any successful load every section raises DatabaseError; non-trivial = history with >= 1 "
@@ -16,6 +16,8 @@ EXHAUSTIVE = {"fault position: every line of the sampled good files": True}
 
 def generate(R, tier):
     n = 800 if tier == "quick" else 25000
+    small = ["[mtu]", "label = A", "sig = 1500"]
+    yield {"stream": "big-file", "files": [small, big_file(2200, False), small, big_file(2200, True), big_file(2200, False)], "unreadable": [], "sparse": True}
     for i in range(n):
         A = D.valid_file(R, small=True)
         B = D.valid_file(R, small=True)
@@ -59,6 +61,17 @@ def generate(R, tier):
             base = R.choice(pool)
             for k in range(len(base) + 1):
                 yield {"stream": "fault-at-every-line", "files": [A, base[:k] + ["junk line"] + base[k:], B], "unreadable": []}
+
+
+def big_file(n, bad_last):
+    """> 64 KiB: a database that is only complete when the whole file has been read"""
+    lines = ["[mtu]"]
+    for i in range(n):
+        lines += ["label = Link type number %05d" % i, "sig = %d" % (1 + i % 65535)]
+    lines += ["[tcp:request]", "label = s:unix:Tail:1", "sig = *:64:0:*:8192,7:mss,nop,ws::0"]
+    if bad_last:
+        lines.append("sig = this line is not a signature")
+    return lines
 
 
 def model_line(c):
@@ -218,7 +231,12 @@ def impl_init():
                     fresh = None
             obs = []
 
-            def snap():
+            ticks = [0]
+
+            def snap(force=True):
+                ticks[0] += 1
+                if c.get("sparse") and not force and ticks[0] % 499:
+                    return          # very long files: a full snapshot at every 499th line-read point (and after the return)
                 d = U.dump_db(db)
                 hit = [k for k, v in versions.items() if v == d]
                 cand = dict(versions)
@@ -227,7 +245,7 @@ def impl_init():
                 obs.append(sorted(set(hit)) if hit else "TORN")
             with real_open(path, "w", encoding="utf-8", newline="") as f:
                 f.write("\n".join(lines) + "\n")
-            hook["cb"] = snap
+            hook["cb"] = (lambda: snap(False))
             try:
                 if (i - 1) in c["unreadable"]:
                     db.load(os.path.join(work, "no-such-dir", "x.fp"))
